@@ -1,4 +1,6 @@
 import AmrK.Names
+import AmrK.CellHRewriteProofs
+import AmrK.HeaderRewriteProofs
 import AmrK.WritersSizes
 /-! # C05 — colander output holds exactly the kept fields and levels, bit for bit
 
@@ -43,5 +45,70 @@ theorem kept_fields_rule (names r : List String) :
       (∀ x, x ∈ r → x ∈ names → x ∈ Names.select names (some r)) ∧ Names.select names none = names :=
   ⟨Names.select_some_sublist names r, fun x hx => Names.mem_select names (some r) x hx,
    fun x hr hn => Names.select_complete names r x hr hn, rfl⟩
+
+/-- the positions at which the kept fields are taken from the input are positions of those very names -/
+theorem kept_positions (names sel : List String) (h : ∀ x ∈ sel, x ∈ names) :
+    (Names.indices names sel).length = sel.length ∧
+      ∀ (k i : Nat), (Names.indices names sel)[k]? = some i → ∃ x, sel[k]? = some x ∧ names[i]? = some x :=
+  Names.indices_spec names sel h
+
+/-- **the output header**: for a good input header read under the limit `l`, the header colander writes (the executable
+    writer model `Header.rewriteOf`, compared byte for byte with every written `Header`) has levels `0 … l` and is read
+    back as: the new field table, and the input's time, domain bounds and - cut after level `l` - cell sizes, grid sizes,
+    step numbers, box counts and physical boxes (float tokens already in Python's shortest form) -/
+theorem output_header_keeps_mesh (Hin : Header.HData) (hin : Hin.Good) (l : Nat) (hl : l < Hin.levels.length)
+    (coord : Py.Bytes) (names : List Py.Bytes) :
+    let Hout := Header.rewriteOf id true (Hin.meta (l + 1)) coord names
+    let M := Hout.meta (l + 1)
+    Hout.levels.length = l + 1 ∧
+    M.fields = Header.tableOf names ∧ M.maxLevel = (l : Int) ∧ M.limitLevel = (l : Int) ∧ M.ndims = Hin.ndims ∧
+    M.time = Hin.time ∧ M.geoLo = Hin.geoLo ∧ M.geoHi = Hin.geoHi ∧
+    M.dx = Hin.dx.take (l + 1) ∧ M.gridSizes = (Hin.gridHi.take (l + 1)).map (·.map (· + 1)) ∧
+    M.steps = Hin.steps.take (l + 1) ∧
+    M.boxes = (Hin.levels.take (l + 1)).map (·.boxes) ∧
+    M.npoints = (Hin.levels.take (l + 1)).map (fun L => (L.boxes.length : Int)) :=
+  Header.rewrite_keeps_mesh Hin hin l hl true coord names
+
+/-- … and that written header is read back as its content whenever it passes the executable check `goodB`
+    (evaluated by the driver on every written header; any float formatting `fl`) -/
+theorem output_header_read_back (fl : Py.Bytes → Py.Bytes) (m : Header.Meta) (coord : Py.Bytes) (names : List Py.Bytes)
+    (hg : (Header.rewriteOf fl true m coord names).goodB = true) :
+    Header.parse (Header.render (Header.rewriteOf fl true m coord names)) none =
+      .ok ((Header.rewriteOf fl true m coord names).meta (Header.rewriteOf fl true m coord names).levels.length) :=
+  Header.rewrite_read_back fl true m coord names hg
+
+/-- **the level header of the output** (`update_cell_header`, the executable line rewriter `CellHRewrite.rewriteLines`,
+    compared byte for byte with every `Cell_H` colander writes): for an input level header of any number of boxes and
+    fields, the output keeps the index ranges and file names, carries the number of kept fields and the new offsets, and
+    **every per-box minimum / maximum row is the input's row restricted to the kept fields, in the kept order** -/
+theorem level_header_rows_restricted (l0 l1 lnf : Py.Bytes) (pre : List Py.Bytes)
+    (hpre : ∀ l ∈ pre, CellHRewrite.containsSub CellHRewrite.fabTag l = false)
+    (r0 : Py.Bytes × Nat) (rows : List (Py.Bytes × Nat)) (hrows : ∀ r ∈ r0 :: rows, r.1 ≠ [] ∧ Py.NoSpace r.1)
+    (o0 : Nat) (offs : List Nat) (hlen : offs.length = rows.length)
+    (nf : Nat) (mins maxs : List (List Py.Bytes)) (blank1 blank2 : Py.Bytes)
+    (hmin : ∀ r ∈ mins, r.length = nf ∧ ∀ v ∈ r, Py.NoByte 44 v) (hmax : ∀ r ∈ maxs, r.length = nf ∧ ∀ v ∈ r, Py.NoByte 44 v)
+    (kept : List Nat) (hk : ∀ k ∈ kept, k < nf) (rest : List Py.Bytes) :
+    CellHRewrite.rewriteLines kept (o0 :: offs)
+      (l0 :: l1 :: lnf :: (pre ++ Taste.fabLine r0.1 r0.2 :: (rows.map (fun r => Taste.fabLine r.1 r.2) ++
+        (blank1 :: CellHRewrite.cntLine mins.length nf :: (mins.map CellHRewrite.rowText ++
+          (blank2 :: CellHRewrite.cntLine maxs.length nf :: (maxs.map CellHRewrite.rowText ++ rest))))))) =
+    some (l0 :: l1 :: Py.natBytes kept.length :: (pre ++ [Taste.fabLine r0.1 o0] ++
+      ((rows.zip offs).map (fun p => Taste.fabLine p.1.1 p.2) ++
+        ((blank1 :: CellHRewrite.cntLine mins.length kept.length ::
+            mins.map (fun r => CellHRewrite.rowText (kept.map (r.getD · [])))) ++
+          (blank2 :: CellHRewrite.cntLine maxs.length kept.length ::
+            maxs.map (fun r => CellHRewrite.rowText (kept.map (r.getD · []))))))) ) :=
+  CellHRewrite.rewriteLines_spec l0 l1 lnf pre hpre r0 rows hrows o0 offs hlen nf mins maxs blank1 blank2 hmin hmax kept hk rest
+
+/-- lines without the letter `F` (index ranges, counts) meet the hypothesis on the copied lines -/
+theorem copied_lines_hypothesis (s : Py.Bytes) (h : Py.NoByte 70 s) : CellHRewrite.containsSub CellHRewrite.fabTag s = false :=
+  CellHRewrite.containsSub_of_noF s h
+
+/-- non-vacuity: two boxes, three fields, the last and the first kept -/
+example :
+    CellHRewrite.rewrite [2, 0] [0, 77]
+      "1\n1\n3\n0\n(2 0\n((0,0) (3,3) (0,0))\n((4,0) (7,3) (0,0))\n)\n2\nFabOnDisk: Cell_D_00000 500\nFabOnDisk: Cell_D_00001 0\n\n2,3\n1.0,2.0,3.0,\n4.0,5.0,6.0,\n\n2,3\n7.0,8.0,9.0,\n1e1,1e2,1e3,\n".toUTF8.toList =
+    some "1\n1\n2\n0\n(2 0\n((0,0) (3,3) (0,0))\n((4,0) (7,3) (0,0))\n)\n2\nFabOnDisk: Cell_D_00000 0\nFabOnDisk: Cell_D_00001 77\n\n2,2\n3.0,1.0,\n6.0,4.0,\n\n2,2\n9.0,7.0,\n1e3,1e1,\n".toUTF8.toList := by
+  decide +kernel
 
 end C05
